@@ -179,28 +179,31 @@ def kSkeleton (cls : Cls) (s : HG) (order : Int) : HG × Outcome :=
 
 /-! ### from_max_simplices -/
 
-/-- `reduce(lambda x, y: x & y, (nodes[n] for n in e))`; `none` = `TypeError` on an empty edge -/
-def interMemb (s : HG) : List PyId → Option (List PyId)
-  | [] => none
-  | n :: ns => some (ns.foldl (fun acc m => acc.filter (· ∈ s.memb m)) (s.memb n))
+/-- `containing(e)` of `EdgeView.maximal` (since /repo 8eb4626): the IDs of the edges that contain every node
+    of `e` — `set(edges)` for an empty edge, else `reduce(lambda x, y: x & y, (nodes[n] for n in e))` -/
+def interMemb (s : HG) : List PyId → List PyId
+  | [] => s.edges
+  | n :: ns => ns.foldl (fun acc m => acc.filter (· ∈ s.memb m)) (s.memb n)
 
 /-- `dups[frozenset(e)]` -/
 def dupsOf (s : HG) (i : PyId) : List PyId := s.edges.filter (fun j => sameSet (s.mem j) (s.mem i))
 
-/-- the loop of `EdgeView.maximal(strict=False)`; `none` = `TypeError` -/
-def maximalLoop (s : HG) : List PyId → List PyId → Option (List PyId)
-  | [], acc => some acc
+/-- the loop of `EdgeView.maximal(strict=False)`:
+    `if i not in max_edges: if containing(e) == set(dups[frozenset(e)]): max_edges.update(dups[frozenset(e)])` -/
+def maximalLoop (s : HG) : List PyId → List PyId → List PyId
+  | [], acc => acc
   | i :: rest, acc =>
     if i ∈ acc then maximalLoop s rest acc else
-    match interMemb s (s.mem i) with
-    | none => none
-    | some x =>
-      if sameSet x (dupsOf s i) then maximalLoop s rest ((dupsOf s i).foldl (fun a j => ins j a) acc)
-      else maximalLoop s rest acc
+    if sameSet (interMemb s (s.mem i)) (dupsOf s i)
+    then maximalLoop s rest ((dupsOf s i).foldl (fun a j => ins j a) acc)
+    else maximalLoop s rest acc
 
 /-- `H.edges.maximal()`: a view, so in edge order -/
-def maximalIds (s : HG) : Option (List PyId) :=
-  (maximalLoop s s.edges []).map (fun acc => s.edges.filter (· ∈ acc))
+def maximalIds (s : HG) : List PyId := s.edges.filter (· ∈ maximalLoop s s.edges [])
+
+/-- `H.edges.maximal(strict=True)`: `if containing(e) == {i}: max_edges.add(i)` -/
+def maximalStrictIds (s : HG) : List PyId :=
+  s.edges.filter (fun i => sameSet (interMemb s (s.mem i)) [i])
 
 /-- `H = Hypergraph(); H.add_nodes_from(SC.nodes);
     H.add_edges_from({i: members(e) for i, e in enumerate(max_simplices)})` (dict format since /repo b705e12:
@@ -209,19 +212,15 @@ def maximalIds (s : HG) : Option (List PyId) :=
     written with the automatic-ID item step. -/
 def fromMaxSimplices (cls : Cls) (s : HG) : HG × Outcome :=
   if cls ≠ .sc then (s, .err .lib) else
-  match maximalIds s with
-  | none => (s, .err .typeError)
-  | some mx =>
-    let r1 := addNodesFrom HG.empty (nodeBare s.nodes) []
-    andThen r1 (fun t => bulk (addEdgesItem .f1 [])  t
-      (mx.map (fun e => { members := s.mem e, idx := none, attr := [] })))
+  let r1 := addNodesFrom HG.empty (nodeBare s.nodes) []
+  andThen r1 (fun t => bulk (addEdgesItem .f1 [])  t
+    ((maximalIds s).map (fun e => { members := s.mem e, idx := none, attr := [] })))
 
 /-! ### largest_connected_hypergraph
 
-  The model describes the repaired code (proposed_fixes/C19-cleanup-null-network.diff):
-  `max(connected_components(H), key=len, default=set())` — the null network, which has no
-  component, is left as it is instead of raising `ValueError` out of `max()`.  On every network
-  with a node this is `HG.lccInPlace` (`lccInPlace'_eq`). -/
+  `max(connected_components(H), key=len, default=set())` (since /repo 4b127bb, the repair this check proposed):
+  the null network, which has no component, is left as it is instead of raising `ValueError` out of `max()`.
+  `lccInPlace'` is definitionally `HG.lccInPlace` (`lccInPlace'_eq`). -/
 
 /-- `max(connected_components(H), key=len, default=set())` -/
 def largestOrEmpty (s : HG) : List PyId := (largestComponent s).getD []
@@ -241,7 +240,7 @@ def lch (s : HG) : HG × Outcome :=
 def relabelNew (s : HG) (labelAttr : String) : HG × Outcome :=
   andThen (copy s) (fun c => relabel c labelAttr)
 
-/-- `Hypergraph.cleanup(in_place=True)`: `HG.cleanup` with the repaired connected step -/
+/-- `Hypergraph.cleanup(in_place=True)`: the same pipeline as `HG.cleanup` -/
 def cleanup' (s : HG) (isolatesOk singletonsOk multiedgesOk connected relabelF : Bool) : Option (HG × Outcome) :=
   let r0 : Option (HG × Outcome) :=
     if multiedgesOk then some (s, .ok) else mergeDuplicateEdges s .first .first none
